@@ -65,6 +65,12 @@ CLAIMS = {
     "C18": {"design_ref": "DESIGN.md 7/C18 + DESIGN_NOTES/C18.md",
             "text": "Coalition's one-expression methods are TRANSLATED from /repo into Coq on every run (fail-closed AST translator) and the bitwise specs are proved over the generated definitions for all ids and n; players/size/from_players, both sub-/super-coalition enumerations (object and id-array, exact order) are complete, duplicate-free and permutations of each other; combinations/powerset spec; is_superadditive / is_monotone_decreasing / is_sam / check_supermodularity decide their textbook definitions. Correspondence: all coalitions n = 1..10, all pairs n <= 5 (6 thorough), exhaustive small lattices for the predicates.",
             "technique": "translation (regenerated each run) + Coq proofs over generated and hand models + exhaustive correspondence"},
+    "C19": {"design_ref": "DESIGN.md 7/C19 + DESIGN_NOTES/C19.md",
+            "text": "Coq theorems: the store is insert-if-absent - once a name is present its entry never changes under ANY further saves (first write wins), saving an existing name is a no-op, saving a new name adds it and changes nothing else; nested-list <-> array round trip for every shape with all dimensions >= 1 (NaN included; refutation for a zero dimension); entry round trip. Correspondence on save histories (repeated names, NaN padding, extreme values, non-JSON metadata) after every save; solve / greedy / best_states commands run with the computation captured - the file must hold exactly that. PARTIAL: CPython's json text codec and float repr are trusted (exercised, not modelled).",
+            "technique": "Coq proof over save histories + save/load history correspondence"},
+    "C20": {"design_ref": "DESIGN.md 7/C20 + DESIGN_NOTES/C20.md",
+            "text": "Coq theorems over an explicit file-operation model (kernel-visible content + user-space buffers; death, interrupt, partial write): for the temp-file + replace procedure the results file after a crash at ANY operation index of ANY save, any payload chunking, any previous content, is exactly the old or the complete new file, and no earlier run is ever lost over sessions with any number of interrupted saves; the in-place procedure is refuted (witness; k = 1 leaves the empty file). Correspondence: the operation trace of save_json is recorded and the scheme identified; fault injection at every operation (exception, os._exit in a fork, half-written raw write) and the bytes left are compared with the model; oracle: file parses and contains every earlier run. PARTIAL: POSIX rename atomicity and CPython io buffering are assumptions of the model, stated in C20.v.",
+            "technique": "Coq proof over crash points of an operation-trace model + fault-injection correspondence"},
 }
 
 PENDING_REASON = "check under construction in this session (DESIGN.md section 9 staging); not claimed until its theorems and correspondence are committed"
